@@ -19,7 +19,7 @@ LAYER = {1: "part-map: what a reader of the document in memory sees after this o
          5: "abstraction: duplicate keys in the abstracted state",
          6: "reads-neutral: a part set in memory has no current time stamp, the next get_part replaces it by the file's content",
          7: "rdf-replaced: save replaced a manifest.rdf held in memory and listed in the manifest by the default one"}
-WEIGHTS = dict(get=3, touch=4, edit=5, set=2, setxml=3, setnew=2, **{"del": 2}, addfile=2, save=7, saveself=2, reopen=6, clone=2, shrink=2, grow=1, merge=1, delpic=1, editobj=2, addobject=1)
+WEIGHTS = dict(get=3, touch=4, edit=5, set=2, setxml=3, setnew=2, **{"del": 2}, addfile=2, save=7, saveself=2, reopen=6, clone=2, shrink=2, grow=1, merge=1, delpic=1, editobj=2, addobject=1, importnew=2)
 
 
 def make_histories(tier, rng):
@@ -84,6 +84,33 @@ def make_histories(tier, rng):
             hs.append([dict(st)] + pre + [dict(op="editobj", r=rng.randrange(1 << 30)), dict(op="save", packaging=pk, target=tg, pretty=False), dict(op="reopen", r=1),
                        dict(op="editobj", r=rng.randrange(1 << 30)), dict(op="editobj", r=rng.randrange(1 << 30)), dict(op="clone"), dict(op="save", packaging="zip", target="buf", pretty=False),
                        dict(op="reopen", r=2), dict(op="touch", r=rng.randrange(1 << 30))])
+    # part names in every directory / spelling the code treats specially: set_part / import of such names on templates and samples, and
+    # packages built with zipfile that already hold them (a signed document's META-INF/documentsignatures.xml ...); every packaging
+    extra = [(n, "payload of " + n) for n in pkglib.SPECIAL_NAMES if not n.endswith("/")][:9] + [("EmptyDir/", "")]
+    for base in small[:2]:
+        for buf in (False, True):
+            for pk, tg in (("zip", "buf"), ("zip", "path"), ("folder", "path")):
+                hs.append([dict(op="buildopen", base=base, extra=extra, buf=buf), dict(op="get", r=rng.randrange(1 << 30)), dict(op="save", packaging=pk, target=tg, pretty=False),
+                           dict(op="reopen", r=1), dict(op="importnew", r=rng.randrange(1 << 30)), dict(op="setnew", r=rng.randrange(1 << 30)),
+                           dict(op="save", packaging="zip", target="buf", pretty=False), dict(op="reopen", r=2), dict(op="get", r=rng.randrange(1 << 30))])
+    for st in starts[:2] + [dict(op="open", src=small[4], buf=True)]:
+        for i in range(0, len(pkglib.SPECIAL_NAMES), 4):
+            ops = []
+            for n in pkglib.SPECIAL_NAMES[i:i + 4]:
+                ops.append(dict(op="set", name=n, variant=1) if n.endswith("/") or i % 8 else dict(op="import", name=n, data="x " + n, mt="application/octet-stream"))
+            hs.append([dict(st)] + ops + [dict(op="save", packaging="zip", target="buf", pretty=False), dict(op="reopen", r=1), dict(op="get", r=rng.randrange(1 << 30)),
+                       dict(op="save", packaging="folder", target="path", pretty=False), dict(op="reopen", r=2), dict(op="get", r=rng.randrange(1 << 30))])
+    # every accepted spelling of a part name (shortcut, "./" prefix) in get_part / set_part / del_part, then edits through doc.body /
+    # doc.meta / doc.styles fetched again, save, reopen
+    for st in starts[:2] + [dict(op="open", src=small[5], buf=False)]:
+        for sp in ("shortcut", "dotslash", "dotshortcut", None):
+            for name, how in (("content.xml", "par"), ("meta.xml", "title"), ("styles.xml", "attr")):
+                hs.append([dict(st), dict(op="edit", name=name, how=how, arg="before"), dict(op="set", name=name, variant=2, spell=sp),
+                           dict(op="edit", name=name, how=how, arg="after"), dict(op="touch", name=name, spell=sp),
+                           dict(op="save", packaging="zip", target="buf", pretty=False), dict(op="reopen", r=1), dict(op="touch", name=name, spell=sp)])
+        for sp in ("dotslash", None):
+            hs.append([dict(st), dict(op="get", name="Thumbnails/thumbnail.png", spell=sp), dict(op="set", name="Thumbnails/thumbnail.png", variant=1, spell=sp),
+                       dict(op="del", name="Thumbnails/thumbnail.png", spell=sp), dict(op="save", packaging="zip", target="buf", pretty=False), dict(op="reopen", r=1)])
     # F35: a package without manifest.rdf, opened by path / by buffer; the user provides one and lists it; save
     import zipfile
     nordf = [s for s in small if "manifest.rdf" not in zipfile.ZipFile(s).namelist()][:2]
@@ -98,7 +125,9 @@ def make_histories(tier, rng):
 def key_of(recs, i, code):
     c = recs[i]["concrete"]; k = c["op"]
     cls = k
-    if k == "set" and pkglib.is_xml_name(c["name"]):
+    if k == "del" and c.get("spell") in ("dotslash", "dotshortcut"):
+        cls = "del-dotslash"
+    elif k == "set" and pkglib.is_xml_name(c["name"]):
         cls = "set-xml-part"
     elif k == "save" and code == 7:
         first = recs[0]["concrete"]["op"]
